@@ -373,7 +373,13 @@ example : (hm2mCmd (⟨[[2], [6]], [⟨[(6, 0)], [(2, 1)]⟩, ⟨[(6, 0)], [(2, 
 run; the model blocks a mutator iff its name is in that list, so the next two theorems re-check
 the source's table. -/
 
-/-- every mutating `dict` method is bound to the raiser in the class body -/
+/-- the model's list of mutating dict methods is complete for the interpreter the check runs under: every method
+    `dict` has there is either one of the eight mutators or a known non-mutator, and all eight exist -/
+theorem dict_methods_classified :
+    (∀ n ∈ Generated.dictMethods, n ∈ dictMutators ∨ n ∈ dictNonMutators) ∧
+    (∀ n ∈ dictMutators, n ∈ Generated.dictMethods) ∧ (∀ n ∈ dictMutators, n ∉ dictNonMutators) := by decide
+
+/-- every mutating `dict` method resolves, on the evaluated class, to a function that does nothing but raise -/
 theorem fd_all_mutators_blocked : ∀ n ∈ dictMutators, n ∈ Generated.frozenBlocked := by decide
 
 /-- every mutating dict operation raises TypeError and leaves the FrozenDict unchanged -/
